@@ -17,6 +17,7 @@ from vf.props import mbi_gen as G
 from vf.refs import mbi_rom
 
 ID = "C02"
+ROTATING_PKI = 0.3  # fraction of the key / certificate paths that are rotating slots (vf/pki.py)
 LEVEL = "exploration"
 TECHNIQUE = ("runtime monitoring: independent ROM acceptance model (pure-Python RSA/ECDSA/AES/CRC) on exported bytes + "
              "M-SIGN hook on the signature provider + single-bit-flip coverage sweep")
